@@ -27,6 +27,10 @@ class Shape(Exception):
     pass
 
 
+class OutOfRange(Shape):
+    """a constant index outside the 3x3 rotation matrix: IndexError for every input that reaches the statement"""
+
+
 def C(i):
     return Poly.atom('c%d' % i)
 
@@ -126,6 +130,8 @@ class Reader:
             i, j = (x.value for x in e.slice.elts)
             if 0 <= i < 3 and 0 <= j < 3:
                 return self.M[i][j]
+            if e.value.id == self.R and (i > 2 or j > 2 or i < -3 or j < -3):
+                raise OutOfRange('%s reads outside the 3x3 rotation matrix' % ast.unparse(e))
         if isinstance(e, ast.Call) and isinstance(e.func, ast.Name) and e.func.id in ('sin', 'cos') and len(e.args) == 1:
             a = e.args[0]
             if isinstance(a, ast.Subscript) and isinstance(a.value, ast.Name) and a.value.id == self.arr and isinstance(a.slice, ast.Constant):
@@ -328,6 +334,8 @@ def check_tr2rpy(run, words, rule='R19'):
                     construct = '%s: singular (pitch = %+d*pi/2) rpy[%d] = %s' % (label, s1, slot, src(st.value, 40))
                     (run.holds if ok else run.violation)(rule, f.key, construct, ('with roll = 0: ' + msg) if ok else
                                                          'with roll = 0 and sin(pitch) = %+d the writer %s gives %s' % (s1, _w(word), msg), f=f, node=st)
+        except OutOfRange as ex:
+            run.violation(rule, f.key, '%s: index range' % label, '%s: the branch raises IndexError for every pose that reaches it' % ex, f=f)
         except Shape as ex:
             run.error('R19: tr2rpy[%s]: unrecognised %s' % (label, ex))
     return n
@@ -595,6 +603,19 @@ def check_pivot_tables(run, key='base/transforms3d:tr2rpy', rule='R19'):
             if chain is None:
                 continue
             arms, els = if_chain(chain)
+            # every candidate of the list has exactly one branch `k == i`
+            tested = []
+            for (t, body) in arms:
+                bb = matches('%s == _I' % kname, t)
+                if bb is not None and isinstance(bb['_I'], ast.Constant) and isinstance(bb['_I'].value, int):
+                    tested.append(bb['_I'].value)
+            odd_tests = [t for (t, body) in arms if kname in {y.id for y in ast.walk(t) if isinstance(y, ast.Name)} and matches('%s == _I' % kname, t) is None]
+            if sorted(tested) != list(range(len(cands))) or odd_tests:
+                n += 1
+                run.violation(rule, f.key, 'pivot chain over %s' % kname, 'the chain after %s = argmax(..) of %d candidates tests %s%s: every candidate index needs exactly '
+                              'one `%s == i` branch, otherwise the value selected for some pivot is computed by the formula of another one (or not at all)' % (
+                                  kname, len(cands), ', '.join('%s == %d' % (kname, i_) for i_ in tested) or 'nothing',
+                                  (' and ' + ', '.join(src(t, 20) for t in odd_tests)) if odd_tests else '', kname), f=f, node=chain)
             for (t, body) in arms:
                 bb = matches('%s == _I' % kname, t)
                 if bb is None or not isinstance(bb['_I'], ast.Constant) or not isinstance(bb['_I'].value, int):
